@@ -115,6 +115,9 @@ pub proof fn canary__axioms_consistent()
     broadcast use crate::hashes::axiom_pedersen_inj;
     broadcast use crate::hashes::axiom_keccak_inj;
     broadcast use crate::hashes::axiom_blake_inj;
+    broadcast use crate::hashes::axiom_poseidon_many_range;
+    broadcast use crate::hashes::axiom_poseidon2_range;
+    broadcast use crate::hashes::axiom_pedersen_range;
 }
 }
 '''
